@@ -239,7 +239,7 @@ def disk_tree(rng, max_entries=30, max_depth=5, types=("dir", "file", "symlink",
         if len(p) > 3000:
             continue
         e = {"p": hx(p), "uid": rng.choice([0, 0, 1000, 65534]), "gid": rng.choice([0, 0, 1000, 65534]),
-             "mt": rng.choice(MTIMES[:4] + [1234567890_987654321])}
+             "mt": rng.choice(MTIMES[:4] + [1234567890_987654321, 0])}      # (0 = the epoch itself, a valid time stamp)
         if d:
             e["t"] = "dir"
             e["mode"] = rng.choice([0o755, 0o700, 0o1777, 0o2755, 0o750, 0o644, 0o600])
